@@ -885,11 +885,23 @@ func (g *c14Gen) switchStmt() {
 		g.inSw++
 		g.push() // a clause is a scope of its own
 		g.stmts(1 + g.r.intn(2))
-		if g.inLoop > 0 && g.r.chance(25) {
+		if g.r.chance(30) {
+			// an unlabelled break leaves the switch, also after a loop nested in the same clause
 			g.tag("break-in-switch")
+			if g.r.chance(60) && len(g.scopes) < 7 {
+				g.tag("loop-then-break-in-switch")
+				if g.r.bool() {
+					g.forLoop()
+				} else {
+					g.rangeLoop()
+				}
+			}
 			g.emitf("if %s {", g.genBool(1))
 			g.emitf("\tbreak")
 			g.emitf("}")
+			if x := g.pickVar("int", true); x != nil {
+				g.emitf("%s = (%s + %d) %% %d", x.name, x.name, 1+g.r.intn(900), c14M)
+			}
 			g.stmts(1)
 		}
 		g.pop()
